@@ -4,30 +4,44 @@ import (
 	"fmt"
 	"strings"
 
-	sdk "github.com/cosmos/cosmos-sdk/types"
-
 	"verifharness/chain"
 	"verifharness/run"
 	_ "verifharness/scen"
 )
 
-type probe struct{ n int }
+type probe struct{ on bool }
 
 func (p *probe) AfterCommit(w *chain.World, blk *chain.BlockRecord) {
-	if blk.Height < 36 || blk.Height > 62 || len(blk.Txs) < 2 || len(blk.Txs) > 6 {
-		return
+	for _, t := range blk.Txs {
+		if strings.Contains(t.MsgType(), "MsgAddExternalIncentive") {
+			fmt.Printf("h=%d incentive ok=%v %.200s | %.150s\n", blk.Height, t.OK(), fmt.Sprint(t.Msgs), t.Result.Log)
+			p.on = true
+		}
 	}
-	ctx := w.ReadCtx()
-	pool, _ := w.App.AmmKeeper.GetPool(ctx, 1)
-	tr := w.App.BankKeeper.GetAllBalances(ctx, sdk.MustAccAddressFromBech32(pool.RebalanceTreasury))
-	fmt.Printf("h=%d pool1 %v treasury %v\n", blk.Height, pool.PoolAssets[0].Token.String()+" "+pool.PoolAssets[1].Token.String(), tr)
-	for _, t := range blk.Txs[1:] {
-		fmt.Printf("   tx %s ok=%v %.260s | %.120s\n", t.MsgType(), t.OK(), fmt.Sprint(t.Msgs), strings.SplitN(t.Result.Log, "\n", 2)[0])
+	if p.on && blk.Height%2 == 0 {
+		ctx := w.ReadCtx()
+		pi, _ := w.App.MasterchefKeeper.GetPoolInfo(ctx, 2)
+		_, okA := w.App.OracleKeeper.GetAssetPrice(ctx, "ELYS")
+		_, okU := w.App.OracleKeeper.GetAssetPrice(ctx, "USDC")
+		fmt.Printf("h=%d pool2 ext denoms %v elys price %v usdc price %v\n", blk.Height, pi.ExternalRewardDenoms, okA, okU)
+		for _, pri := range w.App.MasterchefKeeper.GetAllPoolRewardInfos(ctx) {
+			if pri.PoolId == 2 && pri.RewardDenom == "uusdc" {
+				fmt.Printf("    acc 2|uusdc = %s last=%d\n", pri.PoolAccRewardPerShare, pri.LastUpdatedBlock)
+			}
+		}
+		late := w.Users[10]
+		for _, u := range w.App.MasterchefKeeper.GetAllUserRewardInfos(ctx) {
+			if u.User == late.S() && u.PoolId == 2 {
+				fmt.Printf("    late uri %s pend=%s debt=%s\n", u.RewardDenom, u.RewardPending, u.RewardDebt)
+			}
+		}
+		cm := w.App.CommitmentKeeper.GetCommitments(ctx, late.Addr)
+		fmt.Printf("    late committed pool2 %s\n", cm.GetCommittedAmountForDenom("amm/pool/2"))
 	}
 }
 
 func main() {
-	j := run.Job{Prop: "C04", Scenario: "swap-batch", Index: 0, Seed: 1, Tier: "quick"}
+	j := run.Job{Prop: "C13", Scenario: "rewards", Index: 1, Seed: 1, Tier: "quick"}
 	run.AttachHook = func(w *chain.World) { w.AddProbe(&probe{}) }
 	r := run.RunJob(j)
 	fmt.Println(r.NViolations)
